@@ -94,9 +94,10 @@ def outputRaises : List Exc :=
 
 inductive NumClass where
   | neg | zero | pos | inf | nan
+  | word      -- not a number at all: the keyword `all` (legal in one slot only, the pulse of `--attach-load`)
 deriving Repr, DecidableEq, Inhabited
 
-def NumClass.all : List NumClass := [.neg, .zero, .pos, .inf, .nan]
+def NumClass.all : List NumClass := [.neg, .zero, .pos, .inf, .nan, .word]
 
 inductive Field where
   | frequency | freqSteps | freqIncrement | wireNseg | wireCoord | wireRadius | voltage | load | rlcR | rlcL | rlcC | trapR | laplaceA | laplaceB | skinConductivity | skinResistivity | insulationRadius | insulationEps | geoScale | geoRotateAngle | geoTranslate | geoKey | taperMin | taperMax | mediumEps | mediumSigma | mediumHeight | mediumCoord | radialCount | radialRadius | nfStart | nfInc | nfCount | nfPower | ffPower | ffDistance | thetaStart | thetaCount | phiInc | arcRadius | arcAngle | arcNseg | helixLength | helixTurnlen | helixRadius | helixNseg | excitationPulse | attachLoadIdx | attachPulse
@@ -175,246 +176,295 @@ def expected : Field → NumClass → Outcome
   | .frequency, .pos => .report
   | .frequency, .inf => .diag
   | .frequency, .nan => .diag
+  | .frequency, .word => .usage
   | .freqSteps, .neg => .diag
   | .freqSteps, .zero => .diag
   | .freqSteps, .pos => .report
   | .freqSteps, .inf => .usage
   | .freqSteps, .nan => .usage
+  | .freqSteps, .word => .usage
   | .freqIncrement, .neg => .report
   | .freqIncrement, .zero => .report
   | .freqIncrement, .pos => .report
   | .freqIncrement, .inf => .diag
   | .freqIncrement, .nan => .diag
+  | .freqIncrement, .word => .usage
   | .wireNseg, .neg => .usage
   | .wireNseg, .zero => .diag
   | .wireNseg, .pos => .report
   | .wireNseg, .inf => .usage
   | .wireNseg, .nan => .usage
+  | .wireNseg, .word => .diag
   | .wireCoord, .neg => .report
   | .wireCoord, .zero => .report
   | .wireCoord, .pos => .report
   | .wireCoord, .inf => .diag
   | .wireCoord, .nan => .diag
+  | .wireCoord, .word => .diag
   | .wireRadius, .neg => .diag
   | .wireRadius, .zero => .diag
   | .wireRadius, .pos => .report
   | .wireRadius, .inf => .diag
   | .wireRadius, .nan => .diag
+  | .wireRadius, .word => .diag
   | .voltage, .neg => .report
   | .voltage, .zero => .diag
   | .voltage, .pos => .report
   | .voltage, .inf => .diag
   | .voltage, .nan => .diag
+  | .voltage, .word => .usage
   | .load, .neg => .report
   | .load, .zero => .report
   | .load, .pos => .report
   | .load, .inf => .diag
   | .load, .nan => .diag
+  | .load, .word => .usage
   | .rlcR, .neg => .report
   | .rlcR, .zero => .report
   | .rlcR, .pos => .report
   | .rlcR, .inf => .diag
   | .rlcR, .nan => .diag
+  | .rlcR, .word => .diag
   | .rlcL, .neg => .report
   | .rlcL, .zero => .report
   | .rlcL, .pos => .report
   | .rlcL, .inf => .diag
   | .rlcL, .nan => .diag
+  | .rlcL, .word => .diag
   | .rlcC, .neg => .report
   | .rlcC, .zero => .report
   | .rlcC, .pos => .report
   | .rlcC, .inf => .diag
   | .rlcC, .nan => .diag
+  | .rlcC, .word => .diag
   | .trapR, .neg => .report
   | .trapR, .zero => .report
   | .trapR, .pos => .report
   | .trapR, .inf => .diag
   | .trapR, .nan => .diag
+  | .trapR, .word => .diag
   | .laplaceA, .neg => .report
   | .laplaceA, .zero => .report
   | .laplaceA, .pos => .report
   | .laplaceA, .inf => .diag
   | .laplaceA, .nan => .diag
+  | .laplaceA, .word => .diag
   | .laplaceB, .neg => .report
   | .laplaceB, .zero => .report
   | .laplaceB, .pos => .report
   | .laplaceB, .inf => .diag
   | .laplaceB, .nan => .diag
+  | .laplaceB, .word => .diag
   | .skinConductivity, .neg => .diag
   | .skinConductivity, .zero => .diag
   | .skinConductivity, .pos => .report
   | .skinConductivity, .inf => .diag
   | .skinConductivity, .nan => .diag
+  | .skinConductivity, .word => .diag
   | .skinResistivity, .neg => .diag
   | .skinResistivity, .zero => .diag
   | .skinResistivity, .pos => .report
   | .skinResistivity, .inf => .diag
   | .skinResistivity, .nan => .diag
+  | .skinResistivity, .word => .diag
   | .insulationRadius, .neg => .diag
   | .insulationRadius, .zero => .diag
   | .insulationRadius, .pos => .report
   | .insulationRadius, .inf => .diag
   | .insulationRadius, .nan => .diag
+  | .insulationRadius, .word => .diag
   | .insulationEps, .neg => .diag
   | .insulationEps, .zero => .diag
   | .insulationEps, .pos => .report
   | .insulationEps, .inf => .diag
   | .insulationEps, .nan => .diag
+  | .insulationEps, .word => .diag
   | .geoScale, .neg => .diag
   | .geoScale, .zero => .diag
   | .geoScale, .pos => .report
   | .geoScale, .inf => .diag
   | .geoScale, .nan => .diag
+  | .geoScale, .word => .diag
   | .geoRotateAngle, .neg => .report
   | .geoRotateAngle, .zero => .report
   | .geoRotateAngle, .pos => .report
   | .geoRotateAngle, .inf => .diag
   | .geoRotateAngle, .nan => .diag
+  | .geoRotateAngle, .word => .diag
   | .geoTranslate, .neg => .report
   | .geoTranslate, .zero => .report
   | .geoTranslate, .pos => .report
   | .geoTranslate, .inf => .diag
   | .geoTranslate, .nan => .diag
+  | .geoTranslate, .word => .diag
   | .geoKey, .neg => .report
   | .geoKey, .zero => .report
   | .geoKey, .pos => .report
   | .geoKey, .inf => .report
   | .geoKey, .nan => .report
+  | .geoKey, .word => .diag
   | .taperMin, .neg => .report
   | .taperMin, .zero => .report
   | .taperMin, .pos => .report
   | .taperMin, .inf => .report
   | .taperMin, .nan => .report
+  | .taperMin, .word => .diag
   | .taperMax, .neg => .report
   | .taperMax, .zero => .report
   | .taperMax, .pos => .report
   | .taperMax, .inf => .report
   | .taperMax, .nan => .report
+  | .taperMax, .word => .diag
   | .mediumEps, .neg => .report
   | .mediumEps, .zero => .report
   | .mediumEps, .pos => .report
   | .mediumEps, .inf => .diag
   | .mediumEps, .nan => .diag
+  | .mediumEps, .word => .diag
   | .mediumSigma, .neg => .report
   | .mediumSigma, .zero => .diag
   | .mediumSigma, .pos => .report
   | .mediumSigma, .inf => .diag
   | .mediumSigma, .nan => .diag
+  | .mediumSigma, .word => .diag
   | .mediumHeight, .neg => .report
   | .mediumHeight, .zero => .report
   | .mediumHeight, .pos => .report
   | .mediumHeight, .inf => .diag
   | .mediumHeight, .nan => .diag
+  | .mediumHeight, .word => .diag
   | .mediumCoord, .neg => .report
   | .mediumCoord, .zero => .report
   | .mediumCoord, .pos => .report
   | .mediumCoord, .inf => .diag
   | .mediumCoord, .nan => .diag
+  | .mediumCoord, .word => .diag
   | .radialCount, .neg => .diag
   | .radialCount, .zero => .report
   | .radialCount, .pos => .report
   | .radialCount, .inf => .usage
   | .radialCount, .nan => .usage
+  | .radialCount, .word => .usage
   | .radialRadius, .neg => .diag
   | .radialRadius, .zero => .diag
   | .radialRadius, .pos => .report
   | .radialRadius, .inf => .diag
   | .radialRadius, .nan => .diag
+  | .radialRadius, .word => .usage
   | .nfStart, .neg => .report
   | .nfStart, .zero => .report
   | .nfStart, .pos => .report
   | .nfStart, .inf => .diag
   | .nfStart, .nan => .diag
+  | .nfStart, .word => .diag
   | .nfInc, .neg => .report
   | .nfInc, .zero => .report
   | .nfInc, .pos => .report
   | .nfInc, .inf => .diag
   | .nfInc, .nan => .diag
+  | .nfInc, .word => .diag
   | .nfCount, .neg => .diag
   | .nfCount, .zero => .diag
   | .nfCount, .pos => .report
   | .nfCount, .inf => .usage
   | .nfCount, .nan => .usage
+  | .nfCount, .word => .diag
   | .nfPower, .neg => .diag
   | .nfPower, .zero => .report
   | .nfPower, .pos => .report
   | .nfPower, .inf => .diag
   | .nfPower, .nan => .diag
+  | .nfPower, .word => .usage
   | .ffPower, .neg => .diag
   | .ffPower, .zero => .report
   | .ffPower, .pos => .report
   | .ffPower, .inf => .diag
   | .ffPower, .nan => .diag
+  | .ffPower, .word => .usage
   | .ffDistance, .neg => .report
   | .ffDistance, .zero => .report
   | .ffDistance, .pos => .report
   | .ffDistance, .inf => .diag
   | .ffDistance, .nan => .diag
+  | .ffDistance, .word => .usage
   | .thetaStart, .neg => .report
   | .thetaStart, .zero => .report
   | .thetaStart, .pos => .report
   | .thetaStart, .inf => .diag
   | .thetaStart, .nan => .diag
+  | .thetaStart, .word => .diag
   | .thetaCount, .neg => .report
   | .thetaCount, .zero => .report
   | .thetaCount, .pos => .report
   | .thetaCount, .inf => .usage
   | .thetaCount, .nan => .usage
+  | .thetaCount, .word => .diag
   | .phiInc, .neg => .report
   | .phiInc, .zero => .report
   | .phiInc, .pos => .report
   | .phiInc, .inf => .diag
   | .phiInc, .nan => .diag
+  | .phiInc, .word => .diag
   | .arcRadius, .neg => .diag
   | .arcRadius, .zero => .diag
   | .arcRadius, .pos => .report
   | .arcRadius, .inf => .diag
   | .arcRadius, .nan => .diag
+  | .arcRadius, .word => .diag
   | .arcAngle, .neg => .report
   | .arcAngle, .zero => .report
   | .arcAngle, .pos => .report
   | .arcAngle, .inf => .diag
   | .arcAngle, .nan => .diag
+  | .arcAngle, .word => .diag
   | .arcNseg, .neg => .usage
   | .arcNseg, .zero => .diag
   | .arcNseg, .pos => .report
   | .arcNseg, .inf => .usage
   | .arcNseg, .nan => .usage
+  | .arcNseg, .word => .diag
   | .helixLength, .neg => .report
   | .helixLength, .zero => .diag
   | .helixLength, .pos => .report
   | .helixLength, .inf => .diag
   | .helixLength, .nan => .diag
+  | .helixLength, .word => .diag
   | .helixTurnlen, .neg => .report
   | .helixTurnlen, .zero => .diag
   | .helixTurnlen, .pos => .report
   | .helixTurnlen, .inf => .diag
   | .helixTurnlen, .nan => .diag
+  | .helixTurnlen, .word => .diag
   | .helixRadius, .neg => .diag
   | .helixRadius, .zero => .diag
   | .helixRadius, .pos => .report
   | .helixRadius, .inf => .diag
   | .helixRadius, .nan => .diag
+  | .helixRadius, .word => .diag
   | .helixNseg, .neg => .usage
   | .helixNseg, .zero => .diag
   | .helixNseg, .pos => .report
   | .helixNseg, .inf => .usage
   | .helixNseg, .nan => .usage
+  | .helixNseg, .word => .diag
   | .excitationPulse, .neg => .diag
   | .excitationPulse, .zero => .diag
   | .excitationPulse, .pos => .report
   | .excitationPulse, .inf => .usage
   | .excitationPulse, .nan => .usage
+  | .excitationPulse, .word => .diag
   | .attachLoadIdx, .neg => .diag
   | .attachLoadIdx, .zero => .diag
   | .attachLoadIdx, .pos => .report
   | .attachLoadIdx, .inf => .usage
   | .attachLoadIdx, .nan => .usage
+  | .attachLoadIdx, .word => .diag
   | .attachPulse, .neg => .diag
   | .attachPulse, .zero => .diag
   | .attachPulse, .pos => .report
   | .attachPulse, .inf => .usage
   | .attachPulse, .nan => .usage
+  | .attachPulse, .word => .report
 
 /-- value classes with which the numerical kernel can produce a finite report (independent of the
 table: positive quantities, counts ≥ 1, finite values, non-zero values, free parameters) -/
@@ -424,7 +474,9 @@ def harmless : Field → NumClass → Bool
   | .insulationRadius, c | .geoScale, c | .radialRadius, c | .arcRadius, c | .helixRadius, c
   -- counts and numbers of things: at least one
   | .freqSteps, c | .wireNseg, c | .nfCount, c | .arcNseg, c | .helixNseg, c
-  | .excitationPulse, c | .attachLoadIdx, c | .attachPulse, c => c == .pos
+  | .excitationPulse, c | .attachLoadIdx, c => c == .pos
+  -- the pulse of an attachment: a number ≥ 1 or the keyword `all`
+  | .attachPulse, c => c == .pos || c == .word
   -- finite and different from zero
   | .voltage, c | .helixLength, c | .helixTurnlen, c | .insulationEps, c | .mediumSigma, c =>
       c == .neg || c == .pos
